@@ -148,6 +148,15 @@ pub fn suite(name: &str, thorough: bool) -> Suite {
             s.depth = if thorough { 6 } else { 4 };
             s.terms = vec![Term::Drop, Term::Seq(ALL)];
         }
+        "C02L" => {
+            // positional low-level access on the wrapper: only calls that cannot wait for another thread
+            s.mode = Mode::LowLevel;
+            s.kinds = vec![KindId::IterExact, KindId::IterUnk];
+            s.lens = vec![0, 1, 2, 3, 4];
+            s.alphabet = alphabet(&["N", "C2:a", "BN2", "BXa", "S", "F1", "FN2", "FN3", "GETP", "EE"]);
+            s.depth = if thorough { 6 } else { 5 };
+            s.terms = vec![Term::Drop, Term::Seq(ALL)];
+        }
         "C19" => {
             s.mode = Mode::Multi;
             s.kinds = vec![KindId::Slice, KindId::VecRef, KindId::ArrayRef, KindId::Range5];
